@@ -1,4 +1,5 @@
 import Canopy.Proof.DexArith
+import Canopy.Proof.DexInv
 /-!
 # C20 — escrow, order-book and AMM accounting is exact
 
@@ -127,5 +128,166 @@ example : liquidityDepositPoints 100 100 100 100 = .ok 41 := by
 theorem sqrtProduct_fits (x y : Nat) (hx : x < U64) (hy : y < U64) :
     SqrtProductUint64 x y = some (Nat.sqrt (x * y)) := by
   rw [sqrtProduct_gen, sqrtProduct_exact x y hx hy]
+
+/-!
+# Part 2 — the order book and the escrow pool
+
+`Canopy.Dex.step` is the step function the driver runs against the real `fsm.StateMachine` (one operation, rolled
+back on error, caches reset): create / edit / delete order, `HandleCommitteeSwaps` (lock / reset / close
+instructions of one certificate, duplicates and conflicts included), the three DEX messages, `HandleDexBatch`
+and the end-of-block inclusion. `SInv s` = the order book has unique keys, every order is stored under its own id,
+and for every valid chain id the escrow pool equals the sum of the open orders.
+-/
+
+/-- the hand model was written against exactly these handler bodies (digest of the normalised source, regenerated on
+every run): an edit to any of them breaks this obligation until the model is re-read -/
+theorem handlers_pinned : handlerDigests = [
+  ("HandleCommitteeSwaps", "8436b5e930b626e8"),
+  ("LockOrder", "73c93283a942f79c"),
+  ("ResetOrder", "1a8796fb5220b0d8"),
+  ("CloseOrder", "e4c884eda965711d"),
+  ("HandleMessageCreateOrder", "c1838922f45592f0"),
+  ("HandleMessageEditOrder", "1644b5af84074f5b"),
+  ("HandleMessageDeleteOrder", "923c298e6aad350f"),
+  ("HandleMessageDexLimitOrder", "ee6abce1b270fba7"),
+  ("HandleMessageDexLiquidityDeposit", "081a2ff2ca8376f8"),
+  ("HandleMessageDexLiquidityWithdraw", "c60e588608635fde"),
+  ("PoolAdd", "6b9a0f426ff5733f"),
+  ("PoolSub", "1d3f87a82da50558"),
+  ("SetPool", "df1558b2f6f282f6"),
+  ("AccountAdd", "023f0267053d0277"),
+  ("AccountSub", "bbb3ce698b58f572"),
+  ("AddPoints", "f5b89f4b55e20da2"),
+  ("GetPointsFor", "0d1825bbce515697"),
+  ("HandleDexBatch", "698d196120703b76"),
+  ("HandleRemoteDexBatch", "4d0ad9dc591a890c"),
+  ("HandleReceiptsForOurLockedBatch", "01a6367ec7bf8220"),
+  ("HandleRemoteChainLockedBatch", "00dbdd191ef4398a"),
+  ("HandleOrderReceipts", "d0a93b40b9fe08ef"),
+  ("HandleDexBatchOrders", "8fb158ce79ea4087"),
+  ("handleBatchWithdraw", "ef2798e6e3cf5e6c"),
+  ("handleBatchDeposit", "3b5d500da7471705"),
+  ("handleCappedBatchDeposit", "25c827e2a643e620"),
+  ("RotateDexBatches", "281a8fec83007d96"),
+  ("IncludeSameBlockDex", "42c6161ca2da7d08"),
+  ("HandleLivenessFallback", "6d9ea1df582c9e3c"),
+  ("GetDexBatch", "a478ff12b34f0532"),
+  ("Hash", "f11666f6dd15f7ea"),
+  ("Copy", "8e3cc01a4b37f0a7"),
+  ("IsEmpty", "882a1af3e8ace04e"),
+  ("CopyOrders", "6bb4dd8461d8adc3"),
+  ("HashKey", "1545ec2bd458e28e")] := by decide
+
+/-- **escrow_eq.** Along EVERY sequence of operations, for every chain: escrow pool = Σ amounts of the open sell
+orders of that chain. Side conditions (`Admissible`, each checked in the state the operation is applied to): a
+created order's id is fresh; the escrow balance stays below 2^64 on create/edit-increase (`PoolAdd` does not guard);
+certificate-driven operations carry a valid committee chain id. -/
+theorem escrow_eq (s₀ : State) (ops : List Op) (h₀ : SInv s₀) (hadm : Admissible s₀ ops)
+    (c : Nat) (hc : c ≤ maxChainId) :
+    (getPool (run s₀ ops) (escrowId c)).amount = escrowSum (run s₀ ops) c :=
+  (run_sinv h₀ hadm).eq c hc
+
+/-- … in particular from an empty genesis state -/
+theorem escrow_eq_from_genesis (self root height minOrder : Nat) (ops : List Op)
+    (hadm : Admissible { self, root, height, minOrder } ops) (c : Nat) (hc : c ≤ maxChainId) :
+    (getPool (run { self, root, height, minOrder } ops) (escrowId c)).amount
+      = escrowSum (run { self, root, height, minOrder } ops) c :=
+  escrow_eq _ ops (sinv_init self root height minOrder) hadm c hc
+
+section witnesses
+def addrA : Bytes := List.replicate 20 0xA0
+def addrB : Bytes := List.replicate 20 0xB0
+def id1 : Bytes := List.replicate 20 1
+def mkCreate (id : Bytes) (amount : Nat) : Op :=
+  .create { chain := 2, id := id, data := [], amount := amount, requested := 7, sellerRecv := [9], seller := addrA }
+
+/-- non-vacuity: fund, create, lock, close (with a duplicate close and a conflicting reset in the same certificate) is
+admissible, the order is paid out once, and the identity holds with a non-empty book in between -/
+def demoOps : List Op :=
+  [.fund addrA 1000, mkCreate id1 300, mkCreate (List.replicate 20 2) 50,
+   .swaps 2 { locks := [some { id := id1, buyerRecv := addrB, buyerSend := [5], deadline := 9 }],
+              resets := [id1], closes := [id1, id1] }]
+
+example : escrowSum (run {} (demoOps.take 3)) 2 = 350 ∧ (getPool (run {} (demoOps.take 3)) (escrowId 2)).amount = 350 := by decide
+example : escrowSum (run {} demoOps) 2 = 50 ∧ (getPool (run {} demoOps) (escrowId 2)).amount = 50
+    ∧ balance (run {} demoOps) addrB = 300 ∧ balance (run {} demoOps) addrA = 650 := by decide
+
+/-- **the freshness hypothesis is necessary.** `HandleMessageCreateOrder` does not look for an existing order: a
+second create under an id that is still in the book overwrites the order and credits escrow again. (On the real
+chain the id is `tx.GetHash()[:20]`; the harness case `txid-probe` runs two encodings of one signed create-order
+through the real `ApplyTransaction`.) -/
+theorem escrow_breaks_on_reused_id :
+    let s := run {} [.fund addrA 1000, mkCreate id1 300, mkCreate id1 300]
+    (getPool s (escrowId 2)).amount = 600 ∧ escrowSum s 2 = 300 := by decide
+
+/-- **the `uint64` hypothesis is necessary.** `PoolAdd` is `pool.Amount += amount` without a guard: with more than
+2^64 tokens in existence the escrow pool wraps (reported under C04: unguarded `PoolAdd`/`AddToTotalSupply`). -/
+theorem escrow_wraps_beyond_uint64 :
+    let s := run {} [.fund addrA 18446744073709551615, mkCreate id1 18446744073709551615,
+                     .fund addrA 2, mkCreate (List.replicate 20 2) 2]
+    (getPool s (escrowId 2)).amount = 1 ∧ escrowSum s 2 = 18446744073709551617 := by decide
+end witnesses
+
+/-- **close_exact_once.** A successful `CloseOrder` (from a certificate) moves exactly the order's escrowed amount
+from the chain's escrow pool to the buyer named in the lock, touches no other account and no other escrow pool,
+and removes the order — so that any further lock / reset / close instruction for the same id finds nothing
+(`OrderNotFound`), and no edit or delete message for it can succeed. -/
+theorem close_exact_once {s s' : State} {chain : Nat} {id : Bytes} (hi : SInv s) (hc : chain ≤ maxChainId)
+    (h : closeOrder s chain id = .ok s') :
+    ∃ o, AM.get? s.orders (chain, id) = some o ∧ o.buyerRecv ≠ [] ∧
+      escAmt s' chain + o.amount = escAmt s chain ∧
+      (∀ c, c ≤ maxChainId → c ≠ chain → escAmt s' c = escAmt s c) ∧
+      balance s' o.buyerRecv = balance s o.buyerRecv + o.amount ∧
+      (∀ a, a ≠ o.buyerRecv → balance s' a = balance s a) ∧
+      AM.get? s'.orders (chain, id) = none ∧
+      closeOrder s' chain id = .error .OrderNotFound ∧ resetOrder s' chain id = .error .OrderNotFound ∧
+      (∀ l : LockOrder, l.id = id → lockOrder s' chain l = .error .OrderNotFound) ∧
+      (∀ s'', deleteOrderMsg s' chain id ≠ .ok s'') ∧
+      (∀ (m : EditOrder) s'', m.chain = chain → m.id = id → editOrder s' m ≠ .ok s'') := by
+  obtain ⟨o, s1, s2, hg, hb, h1, h2, rfl⟩ := closeOrder_ok h
+  obtain ⟨e1, e2, e3, e4, e5⟩ := remove_exact (id := id) hi (maxChainId_lt hc) h1 h2
+  obtain ⟨g1, g2, g3, _⟩ := gone_finds_nothing e5
+  refine ⟨o, hg, hb, e1, fun c hc' hne => e2 c (maxChainId_lt hc') hne, e3, e4, e5, g1, g2, g3, ?_, ?_⟩
+  · intro s'' hd
+    obtain ⟨o', _, _, _, hg', _⟩ := deleteOrderMsg_ok hd
+    rw [e5] at hg'; cases hg'
+  · intro m s'' hm1 hm2 he
+    obtain ⟨o', _, _, hg', _⟩ := editOrder_ok he
+    rw [hm1, hm2, e5] at hg'; cases hg'
+
+/-- the same for a seller's `DeleteOrder`: exactly the escrowed amount goes back to the seller, once -/
+theorem delete_exact_once {s s' : State} {chain : Nat} {id : Bytes} (hi : SInv s)
+    (h : deleteOrderMsg s chain id = .ok s') :
+    ∃ o, AM.get? s.orders (chain, id) = some o ∧ o.buyerRecv = [] ∧
+      escAmt s' chain + o.amount = escAmt s chain ∧
+      balance s' o.seller = balance s o.seller + o.amount ∧
+      (∀ a, a ≠ o.seller → balance s' a = balance s a) ∧
+      AM.get? s'.orders (chain, id) = none ∧
+      closeOrder s' chain id = .error .OrderNotFound ∧ deleteOrderMsg s' chain id = .error .OrderNotFound := by
+  obtain ⟨o, s1, s2, hch, hg, hb, h1, h2, rfl⟩ := deleteOrderMsg_ok h
+  obtain ⟨e1, _, e3, e4, e5⟩ := remove_exact (id := id) hi (maxChainId_lt hch) h1 h2
+  obtain ⟨g1, _, _, g4⟩ := gone_finds_nothing e5
+  refine ⟨o, hg, hb, e1, e3, e4, e5, g1, ?_⟩
+  -- the chain id passed `checkChainId` once, it passes again
+  unfold deleteOrderMsg at h
+  simp only [bind, Except.bind] at h
+  split at h
+  · cases h
+  · exact g4 _ ‹checkChainId chain = Except.ok _›
+
+/-- duplicate instructions inside one certificate: closing the same order twice is closing it once -/
+theorem duplicate_close_is_noop {s : State} {chain : Nat} {id : Bytes} (hi : SInv s) :
+    orSkip (orSkip s (closeOrder s chain id)) (closeOrder (orSkip s (closeOrder s chain id)) chain id)
+      = orSkip s (closeOrder s chain id) := by
+  cases hc : closeOrder s chain id with
+  | error e => simp [orSkip, hc]
+  | ok s' =>
+    obtain ⟨o, s1, s2, hg, hb, h1, h2, rfl⟩ := closeOrder_ok hc
+    have hnone : AM.get? (deleteOrder s2 chain id).orders (chain, id) = none := by
+      obtain ⟨ho2, _⟩ := accountAdd_ok h2
+      obtain ⟨_, rfl⟩ := poolSub_ok h1
+      simp only [deleteOrder]; rw [ho2]
+      exact AM.get?_del_self _ _ hi.ordersNodup
+    simp [orSkip, (gone_finds_nothing hnone).1]
 
 end Canopy.C20
